@@ -2202,7 +2202,7 @@ private theorem vol_clear (h : Rat) (cs : List VComp) :
     (clearCache cs).map (vol h) = cs.map (fun c => c.area * h) := by
   simp [clearCache, vol, List.map_map, Function.comp_def]
 
-private theorem sum_map_mul_right (l : List VComp) (f : VComp → Rat) (k : Rat) :
+private theorem vsum_mul_right (l : List VComp) (f : VComp → Rat) (k : Rat) :
     (l.map (fun c => f c * k)).sum = (l.map f).sum * k := by
   induction l with
   | nil => simp
@@ -2210,34 +2210,25 @@ private theorem sum_map_mul_right (l : List VComp) (f : VComp → Rat) (k : Rat)
 
 private theorem sum_active (l : List VComp) (v h : Rat) :
     (l.map (fun c => (if c.nd.isSome then ({ c with nd := some v } : VComp) else c).nd.getD 0 * c.area * h)).sum
-      = v * ((l.filter (fun c => c.nd.isSome)).map (fun c => c.area)).sum * h
-        + ((l.filter (fun c => !c.nd.isSome)).map (fun c => c.nd.getD 0 * c.area * h)).sum := by
+      = v * ((l.filter (fun c => c.nd.isSome)).map (fun c => c.area)).sum * h := by
   induction l with
   | nil => simp
   | cons x t ih =>
-    by_cases hx : x.nd.isSome = true
-    · simp only [List.map_cons, List.sum_cons, ih, hx, if_true, List.filter_cons_of_pos, Bool.not_true,
-        Option.getD_some]
-      simp
-      ring
-    · have hx' : x.nd.isSome = false := by simpa using hx
-      simp only [List.map_cons, List.sum_cons, ih, hx']
-      simp
-      ring
-
-private theorem inactive_zero (l : List VComp) (h : Rat) :
-    ((l.filter (fun c => !c.nd.isSome)).map (fun c => c.nd.getD 0 * c.area * h)).sum = 0 := by
-  induction l with
-  | nil => simp
-  | cons x t ih =>
+    rw [List.map_cons, List.sum_cons, ih]
     cases hx : x.nd with
-    | none => simp [List.filter_cons, hx, ih]
-    | some v => simp [List.filter_cons, hx, ih]
+    | none =>
+      have hf : (x :: t).filter (fun c => c.nd.isSome) = t.filter (fun c => c.nd.isSome) := by
+        simp [List.filter_cons, hx]
+      rw [hf]; simp [hx]
+    | some w =>
+      have hf : (x :: t).filter (fun c => c.nd.isSome) = x :: t.filter (fun c => c.nd.isSome) := by
+        simp [List.filter_cons, hx]
+      rw [hf]; simp [hx]; ring
 
 private theorem atoms_split (l : List VComp) (h : Rat) :
     atomsOf h l = ((l.map (fun c => c.nd.getD 0 * c.area)).sum) * h := by
   unfold atomsOf
-  exact sum_map_mul_right l (fun c => c.nd.getD 0 * c.area) h
+  exact vsum_mul_right l (fun c => c.nd.getD 0 * c.area) h
 
 /-- **the atoms of a listed nuclide are conserved by the height change, summed over the components that share
 it** (up to the code's `1e-50` trace term, stated exactly): Σ N'_c·A_c·hNew = Σ N_c·A_c·hOld + TRACE·ΣA·hNew —
@@ -2255,13 +2246,13 @@ theorem setHeightOne_atoms (hOld hNew : Rat) (cs : List VComp) (hn : hNew ≠ 0)
     intro l
     unfold totalVol
     rw [vol_clear]
-    exact sum_map_mul_right l (fun c => c.area) hNew
+    exact vsum_mul_right l (fun c => c.area) hNew
   have hnum : ((clearCache cs).map (fun c => c.nd.getD 0 * vol hNew c)).sum
       = (cs.map (fun c => c.nd.getD 0 * c.area)).sum * hNew := by
     have : (clearCache cs).map (fun c => c.nd.getD 0 * vol hNew c) = cs.map (fun c => c.nd.getD 0 * c.area * hNew) := by
       simp [clearCache, vol, List.map_map, Function.comp_def, mul_assoc]
     rw [this]
-    exact sum_map_mul_right cs (fun c => c.nd.getD 0 * c.area) hNew
+    exact vsum_mul_right cs (fun c => c.nd.getD 0 * c.area) hNew
   have hbd : blockND hNew (clearCache cs)
       = (cs.map (fun c => c.nd.getD 0 * c.area)).sum / (cs.map (fun c => c.area)).sum := by
     unfold blockND
@@ -2280,12 +2271,11 @@ theorem setHeightOne_atoms (hOld hNew : Rat) (cs : List VComp) (hn : hNew ≠ 0)
     apply List.map_congr_left
     intro c _
     cases hc : c.nd <;> simp [hc]
-  rw [hmap, sum_active, inactive_zero, add_zero, hbd]
+  rw [hmap, sum_active, hbd]
   have e := atoms_split cs hOld
   unfold atomsOf at e
   rw [e]
   field_simp
-  ring
 
 /-- why the order of statements matters (the excluded alternative): adjusting the densities while ONE component
 still carries its old cached volume does not conserve the atoms of a nuclide shared by two components -/
